@@ -42,6 +42,13 @@ def run(ctx):
             for corpus in ("mix", "shipped"):
                 extra.append(dict(entry=entry, limit=5, nlp=entry == "legacynlp", fuzzy=entry != "legacyoptions", thr=0, ponly=False, pboost=False,
                                   allplat=False, plats=[], nocross=False, boost=False, query="raw", raw=raw, corpus=corpus))
+    # every letter of the alphabet in some query with a lexical answer, on every entry point (hand-rolled folds, lookup tables)
+    letters = "abcdefghijklmnopqrstuvwxyz"
+    for i in range(0, 26, 2):
+        raw = "%stool %stool" % (letters[i] * 3, letters[i + 1] * 3)
+        for entry in ("universal", "cached", "pipeline", "legacyoptions", "legacyfuzzy", "legacynlp", "cli"):
+            extra.append(dict(entry=entry, limit=5, nlp=entry in ("legacynlp", "cli"), fuzzy=entry in ("legacyfuzzy", "universal"), thr=0, ponly=False,
+                              pboost=False, allplat=False, plats=[], nocross=False, boost=False, query="raw", raw=raw, corpus="alpha"))
     for s in extra:
         if s["entry"] == "cli":
             s.update(nlp=True, fuzzy=True, thr=-30)
